@@ -449,7 +449,7 @@ let fam_c13 tier r =
 let rand_bytes r n =
   String.init n (fun _ -> Char.chr (pick r [ 32; 34; 92; 61; 9; 10; 39; 128 + rint r 128; 97 + rint r 26; 1 + rint r 254; 47 ]))
 let fam_c03 tier r =
-  let n = if tier = "quick" then 600 else 20000 in
+  let n = if tier = "quick" then 320 else 12000 in
   let one k =
     let r = split r k in
     let nargs = pick r [ 0; 1; 2; 5; 40 ] in
